@@ -71,6 +71,8 @@ def run(ctx, res):
             res.disagreements.append({'what': 'reference run failed: %s' % str(ref)[:300], 'replay': None}); continue
         ref = ref['result']
         ref_lines = sorted(file_lines(ref['files']))
+        rd = run_cli(ctx, case, wd, 'refd%d' % si, 1, None, 'output_dir=outd')
+        ref_dir = rd['result']['files'] if rd.get('ok') and rd['result']['rc'] == 0 else None
         # (a) whole-line payloads, and the size sequence predicted by the model (single group, single process)
         def check_writes(tag, r):
             for pid, fd, req, wr, last, path in r['writes']:
@@ -110,6 +112,16 @@ def run(ctx, res):
                     rr = r['result']
                     check_writes('%d processes' % procs, rr)
                     got = sorted(file_lines(rr['files']))
+                    # output_dir: one file per mapping group -- the files of this run must hold, file by file, the same line sets as those of the
+                    # single-process run (the group names in the file names may differ between runs: they are compared as a multiset of contents)
+                    if 'output_dir' in out and ref_dir is not None:
+                        a_ = sorted(tuple(sorted(l for l in v.split('\n') if l)) for k, v in ref_dir.items() if not k.endswith('/'))
+                        b_ = sorted(tuple(sorted(l for l in v.split('\n') if l)) for k, v in rr['files'].items() if not k.endswith('/'))
+                        a_, b_ = [x for x in a_ if x], [x for x in b_ if x]
+                        if a_ != b_:
+                            res.violations.append({'key': None, 'sig': 'per-file:%d' % procs, 'what': '%d processes, output_dir: the statements are spread over the group files differently than in the single-process run: %d non-empty files with sizes %s against %d with sizes %s'
+                                                   % (procs, len(b_), [len(x) for x in b_][:8], len(a_), [len(x) for x in a_][:8]),
+                                                   'replay': {'rows': nrows, 'mode': mode, 'procs': procs}})
                     res.distinct.add((si, procs, sched, out))
                     res.count('procs=%d' % procs)
                     if got != ref_lines:
